@@ -1,37 +1,82 @@
 (* C06 — A stream is a faithful byte pipe whatever the write and read granularity.
    Only the property theorems (closed by `exact`), their axiom reports, a non-vacuity example.
    Model: Model/LinkedBuffer.v (allocator, slices, writer ops, done/flush, moveTo, reader ops);
-   proofs: Proofs/LinkedBufferProofs.v.  Specification: the byte queue {pw; infl; av}.
+   proofs: Proofs/LinkedBufferProofs.v (reader side), LinkedBufferStore.v (allocator, alloc fits
+   tightly), LinkedBufferWriter.v (WriteBytes / WriteByte / Reserve three-way), LinkedBufferXfer.v
+   (done() stamps a chain, moveTo re-reads it and unlinks empty slices), LinkedBufferPipe.v (global
+   invariant preserved by every operation).  Specification: the byte queue {pw; infl; av}.
 
-   STATUS (after the fix round: Discard and Reserve guard size <= 0 like ReadBytes/Peek already did)
-   * C06_full (all size-class configurations, all op sequences of the whole op set incl. slots
-     pre-held by others, op by op the byte queue's outputs, no panic) is stated below as a
-     Definition.  It used to be REFUTED by Discard(0) on an empty buffer and by Reserve(0) with shm
-     exhausted (two nil dereferences, reproduced on the real code, repaired by
-     .work/fixes/C06_discard0.diff and C06_reserve0.diff); the former witnesses are now the regression
-     theorems C06_discard0_total / C06_reserve0_total / C06_size0_regression, and the harness keeps
-     both scenarios as its first two cases.
-   * PROVED (for every store, every well-formed receive buffer — any mix of shm / heap slices, any
-     slice sizes, any slice boundaries, front slice possibly exhausted — and every sequence):
-       C06_partial_reader   ReadBytes, Peek, Discard, ReadByte, ReadString, Read, ReleasePreviousRead,
-                            releasePreviousReadAndReserve with sizes 0 <= n <= Len() (the former
-                            hypothesis 0 < n is gone): exactly the byte queue's bytes / n / Len, Peek
-                            consumes nothing, never a panic, the invariant "len = |content| and only
-                            the front slice may be exhausted" is kept;
-       C06_partial_fallback the same after any number of fallback (socket) deliveries of any sizes
-                            into the initial buffer of any configuration;
-       C06_fallback_delivery / C06_append_slice: what moveTo's appendBufferSlice needs and gives.
-   * NOT PROVED HERE (covered by the correspondence harness go/harness/c06_*.go only): the writer
-     operations (WriteBytes, WriteByte, Reserve, WriteString, Write), done()/Flush, the shm chain
-     re-read by moveTo (incl. the empty-slice unlinking), reads that trigger readMore's move, and the
-     interleaving with other owners of slots. *)
+   STATUS: C06_full IS PROVED (theorem C06).  For every size-class configuration with positive slice
+   capacities (cfg_ok: exactly the guard createFreeBufferList enforces), every number of slots per
+   class, every operation sequence over the WHOLE op set — WriteBytes, WriteByte, WriteString,
+   Reserve, Write, Flush, ReadBytes, Peek, Discard, ReadByte, ReadString, Read of ANY size (0, below,
+   at, above a slice capacity, above the largest class, above what is available), ReleasePreviousRead,
+   releasePreviousReadAndReserve, recycle, the reset slice ReleaseReadAndReuse leaves in the send
+   position, and allocate / overwrite / free by other owners (any degree of exhaustion, any moment) —
+   the model never panics and answers op by op exactly like the byte queue: same bytes, same n, Len of
+   both buffers, Peek consumes nothing, a read that exceeds what was flushed blocks and changes nothing;
+   and this is independent of the transport (one shm slice, several slices from allocShmBuffers, heap
+   fallback with its 4096 minimum, chains with empty slices, fallback after shm).
+   The statement used to be refuted at size 0 (Discard(0) on an empty buffer, Reserve(0) with shm
+   exhausted: nil dereferences, reproduced on the real code, repaired by .work/fixes/C06_*.diff); the
+   former witnesses are the regression theorems below and the first two cases of every harness run.
+
+   The theorems C06_partial_* are kept: they hold for ANY store and ANY well-formed receive buffer
+   (not only reachable ones).
+
+   Outside the model (assumptions recorded in the evidence): negative sizes, uint32 truncation of
+   sizes above 2^31, concurrency (one writer and one reader goroutine per direction; the lock-free
+   allocator is C01/C02's subject), Stream.Flush's queue/socket (level (i) correspondence). *)
 From Coq Require Import List ZArith Lia Bool Arith.
-From Shm Require Import Gen.Consts Model.LinkedBuffer Proofs.LinkedBufferProofs.
+From Shm Require Import Gen.Consts Model.LinkedBuffer Proofs.LinkedBufferProofs Proofs.LinkedBufferStore
+  Proofs.LinkedBufferWriter Proofs.LinkedBufferXfer Proofs.LinkedBufferPipe.
 Import ListNotations.
 Close Scope Z_scope.
 Open Scope nat_scope.
 
-Definition C06_full : Prop := forall cfg ops, agrees (init_sys cfg) spec0 ops.
+Definition C06_full : Prop := forall cfg ops, cfg_ok cfg -> agrees (init_sys cfg) spec0 ops.
+
+Theorem C06 : C06_full.
+Proof. exact pipe_refines. Qed.
+Print Assumptions C06.
+
+Theorem C06_no_panic : forall cfg ops, cfg_ok cfg -> forall w, run (init_sys cfg) ops <> Panic w.
+Proof. exact no_panic. Qed.
+Print Assumptions C06_no_panic.
+
+(* the inductive invariant behind C06 (store, ownership of every slot, send buffer = pending bytes with
+   the write slice last, chains in the headers, receive buffer with only the front slice possibly
+   exhausted, leases): every operation preserves it and answers like the byte queue *)
+Theorem C06_step : forall s sp idss o, Inv s sp idss ->
+  match spec_step sp o with
+  | None => step s o = Blocked
+  | Some (x, sp') => exists y s' idss', step s o = Ok (y, s') /\ res_agree o x y /\ Inv s' sp' idss'
+  end.
+Proof. exact step_inv. Qed.
+Print Assumptions C06_step.
+
+(* the transfer lemma: after moveTo, content = content before ++ bytes of the flushed chains and
+   fallback slices; no panic; every slot of a chain is appended or free again (ml_cnt) *)
+Theorem C06_move_to : forall ps idss bs m l,
+  store_ok m -> WF m l -> pend_ok m ps idss bs ->
+  (forall x, cnt (frees m) x + cnt (offs (slices l)) x + cnt (concat idss) x <= 1) ->
+  (idss <> [] -> Forall (fun s => shmf s = true) (slices l)) ->
+  exists m' l', move_to m l ps = Ok (m', l') /\ movedL m l (concat idss) bs m' l'
+                /\ ((forall d, ~ In (PFallback d) ps) -> Forall (fun s => shmf s = true) (slices l) ->
+                    Forall (fun s => shmf s = true) (slices l')).
+Proof. exact move_to_spec. Qed.
+Print Assumptions C06_move_to.
+
+(* writer operations refine "append to the pending bytes" in every allocator state *)
+Theorem C06_write_bytes : forall m l bs, wpre m l -> bs <> [] ->
+  exists m' l', write_bytes bs m l = Ok (length bs, m', l') /\ wrote m l bs m' l'.
+Proof. exact write_bytes_ok. Qed.
+Print Assumptions C06_write_bytes.
+
+Theorem C06_reserve : forall m l bs, wpre m l -> bs <> [] ->
+  exists m' l', reserve bs m l = Ok (m', l') /\ wrote m l bs m' l'.
+Proof. exact reserve_ok. Qed.
+Print Assumptions C06_reserve.
 
 (* regression of the two former refutations: at size 0 both calls are total no-ops in every state *)
 Theorem C06_discard0_total : forall s, step s (RDiscard 0) = Ok (RN 0, s).
@@ -61,16 +106,6 @@ Theorem C06_partial_fallback : forall cfg ds ops,
         agrees (with_mem_rcv s0 (mem s0) l') {| pw := []; infl := []; av := concat ds |} ops).
 Proof. exact fallback_pipe_refines. Qed.
 Print Assumptions C06_partial_fallback.
-
-Theorem C06_fallback_delivery : forall m l d, WF m l -> d <> [] ->
-  WF m (append_slice l (fallback_slice d)) /\ content m (append_slice l (fallback_slice d)) = content m l ++ d.
-Proof. exact fallback_delivery. Qed.
-Print Assumptions C06_fallback_delivery.
-
-Theorem C06_append_slice : forall m l s, WF m l -> slice_ok m s -> 0 < ssize s ->
-  WF m (append_slice l s) /\ content m (append_slice l s) = content m l ++ body m s.
-Proof. exact append_slice_ok. Qed.
-Print Assumptions C06_append_slice.
 
 (* non-vacuity: classes 16 x 4 and 64 x 3; a 40-byte write lands in a 64-byte slot, a 100-byte write
    spans slots, both travel through shared memory; the reader takes 16 (fast path, zero copy),
